@@ -891,8 +891,8 @@ def knot_refinement(degree, knotvector, ctrlpts, **kwargs):
         if density < 1:
             raise GeomdlException("Density value cannot be less than 1", data=dict(density=density))
 
-    # Add additional knots to be refined
-    if add_knot_list:
+    # Add additional knots to be refined (the list may be of any sequence type: its truth value is not tested)
+    if add_knot_list is not None and len(add_knot_list) > 0:
         knot_list = list(knot_list) + list(add_knot_list)
 
     def existing_knot(val):
@@ -902,8 +902,17 @@ def knot_refinement(degree, knotvector, ctrlpts, **kwargs):
                 return knot
         return val
 
-    # Sort the list and convert to a set to make sure that the values are unique
-    knot_list = sorted(set(existing_knot(mk) for mk in knot_list))
+    def unique_knots(vals):
+        # Sort the values and make sure that they are unique: values which coincide with each other within the tolerance
+        # are one knot, too
+        ret = []
+        for val in sorted(set(existing_knot(mk) for mk in vals)):
+            if not ret or val - ret[-1] > tol:
+                ret.append(val)
+        return ret
+
+    # Sort the list and make sure that the values are unique
+    knot_list = unique_knots(knot_list)
 
     # Increase knot density
     for d in range(0, density):
@@ -913,7 +922,7 @@ def knot_refinement(degree, knotvector, ctrlpts, **kwargs):
             rknots.append(knot_list[i])
             rknots.append(knot_tmp)
         rknots.append(knot_list[-1])
-        knot_list = sorted(set(existing_knot(mk) for mk in rknots))
+        knot_list = unique_knots(rknots)
 
     # Find how many knot insertions are necessary
     X = []
